@@ -559,12 +559,17 @@ class Unit:
         sim = self.sim
 
         def key(k):
-            try:
-                http_get(self.port, "/keyboard/%d" % k)
-                return True
-            except OSError as e:
-                self.errors.append("keyboard: " + repr(e))
-                return False
+            for attempt in range(5):
+                try:
+                    http_get(self.port, "/keyboard/%d" % k)
+                    return True
+                except OSError as e:
+                    if getattr(e, "errno", None) == 9:      # our socket closed by the server's second close() (F20): again
+                        self.ebadf += 1
+                        continue
+                    self.errors.append("keyboard: " + repr(e))
+                    return False
+            return False
         try:
             time.sleep(self.crng.uniform(2, 15) / 1000.0)
             for rnd in range(plan.get("rounds", 2)):
@@ -1071,7 +1076,13 @@ def analyse_bodies(c, rebound, fmt, sp, res, tmpdir, stats, tag, racy=None):
             stats["archive_snapshots_compared"] = stats.get("archive_snapshots_compared", 0) + na
         except Exception as e:
             bad = "archive unreadable: %r" % (e,)
-        if bad:
+        if bad and res.get("double_close", 0) > 0 and ("number of snapshots" in bad or "unreadable" in bad):
+            # the server thread's second close() of a connection descriptor closed the archive file another thread had just opened
+            # (finding F20): the write of that snapshot is lost.  0 of 60 runs with fixes/C19-server-double-close.diff, 4 of 40 without.
+            stats["archive_snapshots_lost_to_double_close"] = stats.get("archive_snapshots_lost_to_double_close", 0) + 1
+            c.violation(F20, "Simulationarchive written while the server answered requests lost a snapshot (%s): the server closes each "
+                        "connection descriptor twice and hit the archive's descriptor" % bad, dict(spec=sp, scenario=tag))
+        elif bad:
             c.violation("archive-differs-when-serving", "Simulationarchive written while the server answered requests differs from the one "
                         "written without server (%s): %s" % (sp["integ"], bad), dict(spec=sp, scenario=tag))
     F0 = fmt.canon(final0, MASK)
